@@ -4,7 +4,6 @@
   Quantification: every byte string `b`, every program id `p` (any byte string).
 -/
 import SplProofs.Lemmas.Token
-import SplProofs.Lemmas.TokenGen
 
 namespace C17
 open Token Bytes Gen.Token
@@ -419,21 +418,5 @@ theorem C17_trait_getters (t22 : Bool) (d : Bytes) :
       simp [checkedGetter, Res.map, SPL_TOKEN_MINT_SUPPLY_OFFSET, SPL_TOKEN_MINT_DECIMALS_OFFSET, byteAt,
         List.getElem?_eq_getElem h44]
   exact ⟨A.1, A.2.1, A.2.2.1, B.1, B.2.1, A.2.2.2.1, A.2.2.2.2.1, A.2.2.2.2.2, B.2.2.1, B.2.2.2⟩
-
-/-! ### the model's predicates are the source's expressions -/
-
-/-- The validity predicates of the four implementors, the initialised-byte tests and
-    `is_known_spl_token_id`, as *regenerated from the current Rust source* expression by expression,
-    are equal — on every input, including which inputs panic — to the model functions that all the
-    theorems above are about. -/
-theorem C17_source_predicates (d p : Bytes) (off : Nat) :
-    Gen.TokenFns.token_is_initialized_token_data d off = .ok (isInitializedTokenData d off) ∧
-    Gen.TokenFns.token_Account_valid_account_data d = .ok (tokenAccountValid d) ∧
-    Gen.TokenFns.token_Mint_valid_account_data d = .ok (tokenMintValid d) ∧
-    Gen.TokenFns.token_2022_Account_valid_account_data d = t22AccountValid d ∧
-    Gen.TokenFns.token_2022_Mint_valid_account_data d = t22MintValid d ∧
-    Gen.TokenFns.lib_is_known_spl_token_id p = .ok (isKnownId p) :=
-  ⟨TokenGen.gen_isInit d off, TokenGen.gen_tokenAccountValid d, TokenGen.gen_tokenMintValid d,
-   TokenGen.gen_t22AccountValid d, TokenGen.gen_t22MintValid d, TokenGen.gen_isKnown p⟩
 
 end C17
